@@ -480,6 +480,19 @@ func (s *c03sortCk) check(v ssa.Value, at ssa.Instruction, d int) {
 		return
 	}
 	s.seen[v] = true
+	// a list remembered in a memo (sync.Map / map / cache) is as sorted as the lists the repository puts there; whether
+	// the memo may be used at all (its key) is rule M1's business (c03_round4.go)
+	if cell, _, _, isMemo := c03MemoLoadOf(v); isMemo {
+		if vals, ats := c03MemoStores(s.c, cell); len(vals) > 0 {
+			saved := s.stack
+			s.stack = nil
+			for k := range vals {
+				s.check(vals[k], ats[k], d+1)
+			}
+			s.stack = saved
+			return
+		}
+	}
 	viaCall := func(call *ssa.Call, idx int) {
 		sc := call.Call.StaticCallee()
 		if sc == nil || !isRepoFn(sc) || len(sc.Blocks) == 0 {
@@ -494,6 +507,9 @@ func (s *c03sortCk) check(v ssa.Value, at ssa.Instruction, d int) {
 		defer func() { s.stack = s.stack[:len(s.stack)-1] }()
 		eachInstr(sc, func(i ssa.Instruction) {
 			if r, ok := i.(*ssa.Return); ok && idx < len(r.Results) {
+				if r.Block() == sc.Recover && !c03Recovers(sc) {
+					return // the return after a recovered panic, in a function whose deferred calls never recover
+				}
 				s.check(r.Results[idx], r, d+1)
 			}
 		})
@@ -528,12 +544,32 @@ func (s *c03sortCk) check(v ssa.Value, at ssa.Instruction, d int) {
 		}
 	case *ssa.UnOp:
 		if a, ok := x.X.(*ssa.Alloc); ok && x.Op == token.MUL {
-			for _, ref := range *a.Referrers() {
-				if st, ok := ref.(*ssa.Store); ok && st.Addr == a {
-					s.check(st.Val, st, d+1)
-				}
+			// the value of a local cell (a named result captured by a deferred closure, a variable whose address is
+			// taken) at this load: what the stores that reach the load put there, not every store of the function
+			for _, st := range c03ReachingStores(a, x) {
+				s.check(st.Val, st, d+1)
 			}
 			return
+		}
+		if x.Op == token.MUL && c03stateAddr(x.X) {
+			// a remembered list (package-level variable, field of a long-lived object): as sorted as what is stored there
+			if id := c03CellID(x.X); id != "" {
+				n := 0
+				saved := s.stack
+				s.stack = nil
+				for _, f := range s.c.AllFns {
+					eachInstr(f, func(i ssa.Instruction) {
+						if st, ok := i.(*ssa.Store); ok && c03CellID(st.Addr) == id && !isNilConst(st.Val) {
+							n++
+							s.check(st.Val, st, d+1)
+						}
+					})
+				}
+				s.stack = saved
+				if n > 0 {
+					return
+				}
+			}
 		}
 		s.fail(x.Parent(), x.Pos(), "")
 	case *ssa.Parameter:
@@ -598,4 +634,101 @@ func c03FreshArray(v ssa.Value) bool {
 	}
 	_, ok = sl.X.(*ssa.Alloc)
 	return ok
+}
+
+// c03Recovers: a deferred call of f (a closure it defers, or a function deferred by name) calls recover().
+func c03Recovers(f *ssa.Function) bool {
+	hit := false
+	eachInstr(f, func(i ssa.Instruction) {
+		d, ok := i.(*ssa.Defer)
+		if !ok {
+			return
+		}
+		var fns []*ssa.Function
+		if sc := d.Call.StaticCallee(); sc != nil {
+			fns = append(fns, sc)
+		} else if !d.Call.IsInvoke() {
+			fns = funcsOf(d.Call.Value)
+		}
+		if len(fns) == 0 {
+			hit = true // unknown deferred function: may recover
+		}
+		for _, g := range fns {
+			if len(g.Blocks) == 0 {
+				continue
+			}
+			for _, h := range withAnon(g) {
+				eachInstr(h, func(j ssa.Instruction) {
+					if cc := callCommon(j); cc != nil && calleeName(cc) == "builtin.recover" {
+						hit = true
+					}
+				})
+			}
+		}
+	})
+	return hit
+}
+
+// c03ReachingStores: the stores into local cell a that a load at `at` can observe: on every backward path from the
+// load the nearest store. Stores made by closures that captured the cell are added wholesale (they can run at any
+// call in between).
+func c03ReachingStores(a *ssa.Alloc, at ssa.Instruction) []*ssa.Store {
+	var out []*ssa.Store
+	seenStore := map[*ssa.Store]bool{}
+	add := func(st *ssa.Store) {
+		if !seenStore[st] {
+			seenStore[st] = true
+			out = append(out, st)
+		}
+	}
+	type item struct {
+		b    *ssa.BasicBlock
+		from int // scan instructions from-1 down to 0
+	}
+	seen := map[*ssa.BasicBlock]bool{}
+	stack := []item{{at.Block(), instrIndex(at)}}
+	for len(stack) > 0 {
+		it := stack[len(stack)-1]
+		stack = stack[:len(stack)-1]
+		found := false
+		for k := it.from - 1; k >= 0 && k < len(it.b.Instrs); k-- {
+			if st, ok := it.b.Instrs[k].(*ssa.Store); ok && st.Addr == ssa.Value(a) {
+				add(st)
+				found = true
+				break
+			}
+		}
+		if found {
+			continue
+		}
+		for _, p := range it.b.Preds {
+			if !seen[p] {
+				seen[p] = true
+				stack = append(stack, item{p, len(p.Instrs)})
+			}
+		}
+	}
+	// stores through a captured reference
+	for _, ref := range *a.Referrers() {
+		mc, ok := ref.(*ssa.MakeClosure)
+		if !ok {
+			continue
+		}
+		fn, _ := mc.Fn.(*ssa.Function)
+		if fn == nil {
+			continue
+		}
+		for k, b := range mc.Bindings {
+			if b != ssa.Value(a) || k >= len(fn.FreeVars) {
+				continue
+			}
+			fv := fn.FreeVars[k]
+			eachInstr(fn, func(i ssa.Instruction) {
+				if st, ok := i.(*ssa.Store); ok && st.Addr == ssa.Value(fv) {
+					add(st)
+				}
+			})
+		}
+	}
+	return out
 }
